@@ -89,6 +89,10 @@ func childMain() {
 	// "snap": one line with the whole timestamp store (hook VerifC06Snapshot, taken under tssMu)
 	in := bufio.NewScanner(os.Stdin)
 	for in.Scan() {
+		if in.Text() == "tsoff" {
+			fmt.Printf("tsoff %d\n", timestampingOff())
+			continue
+		}
 		if in.Text() != "snap" {
 			continue
 		}
@@ -106,6 +110,64 @@ func childMain() {
 		fmt.Println(sb.String())
 	}
 	os.Exit(0)
+}
+
+// timestampingOff (child): SO_TIMESTAMPING is cleared on every listener socket of this process —
+// from here on datagrams arrive without a receive-timestamp control message and no transmit
+// timestamps are queued (an interface that stops stamping, a datagram that took another path).
+func timestampingOff() int {
+	n := 0
+	ents, _ := os.ReadDir("/proc/self/fd")
+	for _, e := range ents {
+		fd, err := strconv.Atoi(e.Name())
+		if err != nil || fd < 3 {
+			continue
+		}
+		if t, err := unix.GetsockoptInt(fd, unix.SOL_SOCKET, unix.SO_TYPE); err != nil || t != unix.SOCK_DGRAM {
+			continue
+		}
+		sa, err := unix.Getsockname(fd)
+		if err != nil {
+			continue
+		}
+		port := -1
+		switch a := sa.(type) {
+		case *unix.SockaddrInet4:
+			port = a.Port
+		case *unix.SockaddrInet6:
+			port = a.Port
+		}
+		if port != ipPort && port != scionPort && port != endhost {
+			continue
+		}
+		if unix.SetsockoptInt(fd, unix.SOL_SOCKET, unix.SO_TIMESTAMPING_NEW, 0) == nil {
+			n++
+		}
+	}
+	return n
+}
+
+// tsOff: listener children whose sockets no longer stamp (event o): replaced before the next history
+var tsOff = map[childCfg]bool{}
+
+func (c *child) timestampingOff() error {
+	for len(c.lines) > 0 {
+		<-c.lines
+	}
+	if _, err := io.WriteString(c.stdin, "tsoff\n"); err != nil {
+		return err
+	}
+	select {
+	case l := <-c.lines:
+		if f := strings.Fields(l); len(f) != 2 || f[0] != "tsoff" || f[1] == "0" {
+			return fmt.Errorf("unexpected answer %q", l)
+		}
+		return nil
+	case <-c.done:
+		return fmt.Errorf("listener child has exited")
+	case <-time.After(5 * time.Second):
+		return fmt.Errorf("no answer to tsoff request")
+	}
 }
 
 // ---------------------------------------------------------------- parent: children
@@ -606,7 +668,7 @@ func parseEvents(s string) ([]event, bool) {
 				}
 				e.ref = j
 			}
-		case 'e', 't', 'f', 'x', 'r', 'w':
+		case 'e', 't', 'f', 'x', 'r', 'w', 'o':
 			v, err := strconv.Atoi(rest)
 			if err != nil || v < 0 || strconv.Itoa(v) != rest {
 				return nil, false
@@ -741,6 +803,10 @@ func runHist(cfg childCfg, idents []int, evs []event) *histObs {
 		h.sandbox = err.Error()
 		return h
 	}
+	if tsOff[cfg] {
+		restartChild(cfg)
+		delete(tsOff, cfg)
+	}
 	if _, err := getChild(cfg); err != nil {
 		h.sandbox = "cannot start listener child: " + err.Error()
 		return h
@@ -769,6 +835,17 @@ func runHist(cfg childCfg, idents []int, evs []event) *histObs {
 			time.Sleep(12 * time.Millisecond)
 		}
 		prevSrc = e.src
+		if e.letter == 'o' {
+			// the listener's sockets stop stamping (no datagram is sent)
+			time.Sleep(12 * time.Millisecond)
+			tsOff[cfg] = true
+			if err := children[cfg].timestampingOff(); err != nil {
+				h.sandbox = "timestamping off: " + err.Error()
+				return h
+			}
+			o.kind = '-'
+			continue
+		}
 		drain(sock)
 		dstPort := ipPort
 		if cfg.kind == "scion" {
